@@ -354,6 +354,7 @@ type Loc struct {
 	Slice Val
 	Val   Val
 	Guard *Term // the base pointer is non-nil (nil: unconditional)
+	Keys  []string // Kind "key": whole heap keys (type-level frame T.f)
 }
 
 func (fx *fnExec) havocLoc(st *State, loc Loc) {
@@ -385,7 +386,17 @@ func (fx *fnExec) havocLoc(st *State, loc Loc) {
 		}
 	case "key":
 		// whole heap key(s) of a struct type field: modifies T.f (any object)
-		fail("modifies of whole keys not implemented")
+		for _, key := range loc.Keys {
+			srt := heapSorts[key]
+			if srt == nil {
+				srt = keySortHint[key]
+			}
+			if srt == nil {
+				fail("modifies: heap key %s has unknown sort", key)
+			}
+			initialHeap(key, srt)
+			st.heapSet(key, Fresh("mod_"+key, srt))
+		}
 	}
 }
 
